@@ -39,6 +39,10 @@ def rules(ctx):
     # the instance that is solved is the one the request carried (loader rules shared with C17)
     from .C17 import loader_subset
     loader_subset(ctx, ["dead-head-matrix", "DeadHeadTrip-new", "Locations-new"])
+    # the answer is a valid solution: the figures reported with the schedule are the schedule's own (the last pipeline step, the
+    # end-depot alignment, goes through these incremental cycle updates on every request; shared with C15)
+    from . import formulas as _fm
+    _fm.transition_formulas(ctx, "R2")
     o, fd = ctx.require_fn("R1.route-table", "T7", MAIN, "GET /health -> healthy and POST /solve -> solve are registered")
     if fd is not None:
         routes = calls_to(fd, ROUTE)
